@@ -263,7 +263,7 @@ func wsUntil(ws *websocket.Conn, want int32, d time.Duration) ([]Rx, bool) {
 // C15 through the binary: the routes of cmd/main.go
 
 func TestC15Binary(t *testing.T) {
-	col := NewCollector("C15", "binary", "the real binary with a fake discovery service: once with the registration completed (secret issued), once with the registration request accepted but never confirmed (no secret); generated tokens (admissible, and one or two deviations: other/empty key, alg none/foreign/mismatch, expired, not yet valid, issued in the future, 12 tamperings) in the Authorization header, the query string or a cookie; for each: a WebSocket upgrade of / must succeed exactly when the reference admits the token, and POST /smoke-test must answer 200 and contact the endpoint named in its body exactly when admitted, else 401 and no contact; non-trivial = distinct (token, carrier) that differs from an admissible one in one respect, or an admissible token in a non-header carrier")
+	col := NewCollector("C15", "binary", "the real binary with a fake discovery service: once with the registration completed (secret issued), once with the registration request accepted but never confirmed (no secret); generated tokens (admissible, and one or two deviations: other/empty key, alg none/foreign/mismatch, expired, not yet valid, issued in the future, 12 tamperings) in the Authorization header, the query string or a cookie; for each: a WebSocket upgrade of / must succeed exactly when the reference admits the token, and a /smoke-test trigger (POST, and OPTIONS/GET/PUT/HEAD/DELETE/PATCH with the same body) must be answered 401 without contacting the endpoint named in its body unless admitted, and a POST 200 exactly when admitted; non-trivial = distinct (token, carrier) that differs from an admissible one in one respect, or an admissible token in a non-header carrier")
 	t.Cleanup(col.Write)
 	for _, registered := range []bool{true, false} {
 		p, err := startB("", registered)
@@ -300,9 +300,10 @@ func TestC15Binary(t *testing.T) {
 			if err == nil {
 				ws.Close()
 			}
-			labels := map[string]int{fmt.Sprintf("registered_%v", registered): 1, fmt.Sprintf("admit_%v", admit): 1, "carrier_" + carrier: 1}
+			method := pick(rt, "method", []string{"POST", "POST", "POST", "OPTIONS", "OPTIONS", "GET", "PUT", "HEAD", "DELETE", "PATCH"})
+			labels := map[string]int{fmt.Sprintf("registered_%v", registered): 1, fmt.Sprintf("admit_%v", admit): 1, "carrier_" + carrier: 1, "smoke_test_method_" + method: 1}
 			oneOff := registered && carried && spec.Key == p.secret && !sound
-			col.Case(fmt.Sprintf("%v/%s/%s", registered, carrier, tok), oneOff || (admit && carrier != "header"), labels, func() any {
+			col.Case(fmt.Sprintf("%v/%s/%s/%s", registered, carrier, method, tok), oneOff || (admit && carrier != "header"), labels, func() any {
 				return map[string]any{"registered": registered, "carrier": carrier, "spec": spec, "admitted": admit}
 			})
 			if (err == nil) != admit {
@@ -317,7 +318,7 @@ func TestC15Binary(t *testing.T) {
 			if carrier == "query" {
 				u += "?access_token=" + tok
 			}
-			req, _ := http.NewRequest(http.MethodPost, u, bytes.NewReader(body))
+			req, _ := http.NewRequest(method, u, bytes.NewReader(body))
 			switch carrier {
 			case "header":
 				req.Header.Set("Authorization", "Bearer "+tok)
@@ -329,10 +330,12 @@ func TestC15Binary(t *testing.T) {
 				rt.Skip("transport error talking to the binary")
 			}
 			resp.Body.Close()
-			if (resp.StatusCode == 200) != admit || (!admit && resp.StatusCode != 401) {
+			// an admitted trigger with a method other than POST: whether the smoke test runs is not
+			// C15's business; a rejected one must be 401 whatever the method
+			if (method == "POST" && (resp.StatusCode == 200) != admit) || (!admit && resp.StatusCode != 401) {
 				col.Violations++
-				saveCase("C15", map[string]any{"registered": registered, "carrier": carrier, "spec": spec})
-				rt.Fatalf("C15 violated: POST /smoke-test answered %d although the reference %s the token (registered=%v carrier=%s spec=%+v)", resp.StatusCode, map[bool]string{true: "admits", false: "rejects"}[admit], registered, carrier, spec)
+				saveCase("C15", map[string]any{"registered": registered, "carrier": carrier, "spec": spec, "method": method})
+				rt.Fatalf("C15 violated: "+method+" /smoke-test answered %d although the reference %s the token (registered=%v carrier=%s spec=%+v)", resp.StatusCode, map[bool]string{true: "admits", false: "rejects"}[admit], registered, carrier, spec)
 			}
 			if !admit {
 				time.Sleep(15 * time.Millisecond)
